@@ -50,6 +50,8 @@ def main():
                 target_dir = os.path.dirname(line[6:].strip())
                 break
     race = "-race" if prop == "C18" or "-race" in ntext else ""
+    if os.environ.get("SEEDED_NORACE"):
+        race = ""  # (a demonstration that must run without the race detector)
     tmp = tempfile.mkdtemp(prefix="seeded-")
     meta = {"seed_id": sid, "property": prop, "demo": dname, "demo_dir": target_dir, "ran": []}
     try:
